@@ -11,7 +11,7 @@ import props
 
 CLAIMED = sys.argv[1].split(',') if len(sys.argv) > 1 else sorted(props.PROPS)
 NA = {
-    'C05': 'Conformance to the sequential queue-map specification is equality of VALUES (positions, counts, payload bytes, range bounds) over all histories; the deciding code is arithmetic and search (truncate_head, position_to_idx, get_range across the ring wrap) with no clause whose truth is a shape of the code. The few structural facts nearby (gates before effects, forward-only positions) are decided under C13 and C04; claiming C05 through them would claim behaviour that is not checked. Static analysis (this task\'s technique family) genuinely does not apply.',
+    'C05': 'Conformance to the sequential queue-map specification is equality of VALUES (positions, counts, payload bytes, range bounds) over all histories; the deciding code is arithmetic and search (truncate_head, position_to_idx, get_range across the ring wrap) and the property as a whole is not a shape of the code. The structural facts nearby are decided under the properties they are necessary conditions of -- gates before effects (C13), forward-only positions (C04), and the few pieces of that arithmetic that read as affine forms: the ring-buffer window, the record window between two metas, next = last + 1, the new start of a truncation (RB1, RB2, MQ4, PAST4, mapped to C01 / C04 / C08) -- and claiming C05 through them would claim behaviour that is not checked: what every call RETURNS for every history. Static analysis (this task\'s technique family) genuinely does not apply.',
 }
 ids = [json.loads(l)['id'] for l in open(os.path.join(VERIF, 'properties.jsonl'))]
 checks = []
